@@ -46,7 +46,7 @@ func c49Load(pkt []byte, off uint64, size int) (uint32, bool) {
 	return v, true
 }
 
-func c49RefRun(prog []RawInstruction, pkt []byte) (uint32, c49Info) {
+func c49RefRun(prog []RawInstruction, pkt []byte, executed *[256]int64) (uint32, c49Info) {
 	var a, x uint32
 	var m [16]uint32
 	var in c49Info
@@ -61,6 +61,9 @@ func c49RefRun(prog []RawInstruction, pkt []byte) (uint32, c49Info) {
 		in.steps++
 		op, k := ins.Op, ins.K
 		in.kinds |= 1 << (op & 7)
+		if op <= 0xff {
+			executed[op]++
+		}
 		switch op & 7 {
 		case 0: // ld
 			switch op {
@@ -448,9 +451,15 @@ func TestVerif_C49(t *testing.T) {
 	r.CasesParallel("program", nprog, 0, func(c *verifrt.Case) {
 		rng := c.Rng
 		ev := map[string]int64{}
+		var executed [256]int64
 		defer func() {
 			for k, v := range ev {
 				r.Event(k, v)
+			}
+			for op, n := range executed {
+				if n > 0 {
+					r.Event(fmt.Sprintf("ref_exec_0x%02x_%s", op, c49Mnemonic(uint16(op))), n)
+				}
 			}
 		}()
 		l := rng.IntN(129)
@@ -495,7 +504,7 @@ func TestVerif_C49(t *testing.T) {
 				pl = 200
 			}
 			pkt := c49Packet(rng, pl)
-			want, info := c49RefRun(raw, pkt)
+			want, info := c49RefRun(raw, pkt, &executed)
 			var got int
 			var rerr error
 			panicked := false
@@ -577,6 +586,43 @@ func TestVerif_C49(t *testing.T) {
 	r.Require("ref_runs_with_taken_jump", 1000)
 	r.Require("verdict_nonzero", 1000)
 	r.Require("programs_refused_by_NewVM", 100)
+	for _, k := range []string{"ref_exec_0xb1_ldx_msh", "ref_exec_0x48_ldh_ind", "ref_exec_0x80_ld_len", "ref_exec_0x61_ldx_mem", "ref_exec_0x03_stx", "ref_exec_0x9c_mod_x", "ref_exec_0x64_lsh_k", "ref_exec_0x4d_jset_x", "ref_exec_0x25_jgt_k", "ref_exec_0x87_txa", "ref_exec_0x05_ja"} {
+		r.Require(k, 100)
+	}
+}
+
+// c49Mnemonic names an opcode for the evidence counters.
+func c49Mnemonic(op uint16) string {
+	src := "k"
+	if op&0x08 != 0 {
+		src = "x"
+	}
+	switch op & 7 {
+	case 0:
+		return map[uint16]string{0x00: "ld_imm", 0x20: "ld_abs", 0x28: "ldh_abs", 0x30: "ldb_abs", 0x40: "ld_ind", 0x48: "ldh_ind", 0x50: "ldb_ind", 0x60: "ld_mem", 0x80: "ld_len"}[op]
+	case 1:
+		return map[uint16]string{0x01: "ldx_imm", 0x61: "ldx_mem", 0x81: "ldx_len", 0xb1: "ldx_msh"}[op]
+	case 2:
+		return "st"
+	case 3:
+		return "stx"
+	case 4:
+		return map[uint16]string{0x00: "add", 0x10: "sub", 0x20: "mul", 0x30: "div", 0x40: "or", 0x50: "and", 0x60: "lsh", 0x70: "rsh", 0x80: "neg", 0x90: "mod", 0xa0: "xor"}[op&0xf0] + "_" + src
+	case 5:
+		if op == 0x05 {
+			return "ja"
+		}
+		return map[uint16]string{0x10: "jeq", 0x20: "jgt", 0x30: "jge", 0x40: "jset"}[op&0xf0] + "_" + src
+	case 6:
+		if op == 0x16 {
+			return "ret_a"
+		}
+		return "ret_k"
+	}
+	if op == 0x87 {
+		return "txa"
+	}
+	return "tax"
 }
 
 func c49Trunc(p []byte) []byte {
